@@ -852,11 +852,19 @@ impl Scanner for EntryScanner<'_> {
         // trim off everything to the left already.
         self.zonefile.buf.trim_to(self.zonefile.buf.start);
 
+        // Remember if we are inside a quoted value. If so the opening quote
+        // has already been skipped over, it is not part of the value.
+        let is_quoted = self.zonefile.buf.cat == ItemCat::Quoted;
+
         // Skip over symbols that don’t need converting at the beginning.
         while self.zonefile.buf.next_char_symbol()?.is_some() {}
 
         // If we aren’t done yet, we have escaped characters to replace.
         let mut write = self.zonefile.buf.start;
+        if is_quoted && self.zonefile.buf.cat == ItemCat::None {
+            // The item has ended.  Remove the double quote.
+            write -= 1;
+        }
         while let Some(sym) = self.zonefile.buf.next_symbol()? {
             write += sym
                 .into_char()?
